@@ -103,6 +103,14 @@ pub fn bases() -> Vec<InstRep> {
         removed: vec![RemRep { constraint: ConRep::new(12, LE_ZERO, Some(FnRep::Quad { entries: vec![(2, 2, 0.0)], lin: None })), reason: "r".into(), parameters: vec![] }],
         ..Default::default()
     });
+    // B5: nothing uses a variable (constant objective and constraint) - the id rules still apply
+    v.push(InstRep {
+        sense: SENSE_MIN,
+        objective: Some(FnRep::Const(1.0)),
+        vars: vec![VarRep::new(4, KIND_CONTINUOUS, None), VarRep::new(2, KIND_BINARY, None), VarRep::new(9, KIND_INTEGER, Some((0.0, 3.0)))],
+        constraints: vec![ConRep::new(1, LE_ZERO, Some(FnRep::Const(-1.0)))],
+        ..Default::default()
+    });
     v
 }
 
